@@ -137,3 +137,26 @@ theorem spec_mulmod_eq (a b n : Nat) (hn0 : 0 < n) (hW : n < W) : spec_mulmod a 
 theorem spec_powmod_eq (a b n : Nat) (hn0 : 0 < n) (hW : n < W) : spec_powmod a b n = a ^ b % n := by
   unfold spec_powmod; exact Nat.mod_eq_of_lt (lt_trans (Nat.mod_lt _ hn0) hW)
 '''
+
+# ---------------------------------------------------------------------------------------------------------------- gcd
+g_step = Lemma('g_step', ['a', 'b'], ne(b, 0),
+               And(urem(a, b) < b, eq(App('gcd', b, urem(a, b)), App('gcd', a, b))),
+               proof=r'''  have hb0 : 0 < b := Nat.pos_of_ne_zero hyp
+  have hlt : a % b < b := Nat.mod_lt _ hb0
+  refine ⟨hlt, ?_⟩
+  rw [spec_gcd_eq _ _ hW_b (lt_trans hlt hW_b), spec_gcd_eq _ _ hW_a hW_b]
+  rw [Nat.gcd_comm b (a % b), ← Nat.gcd_rec, Nat.gcd_comm]''',
+               doc='Euclid step: gcd(b, a mod b) = gcd(a, b) and a mod b < b')
+g_exit = Lemma('g_exit', ['a'], TRUE, eq(App('gcd', a, 0), a),
+               proof=r'''  rw [spec_gcd_eq _ _ hW_a (by simp [W])]
+  exact Nat.gcd_zero_right a''',
+               doc='gcd(a, 0) = a')
+GCD = [g_step, g_exit]
+GCD_PRELUDE = r'''
+theorem spec_gcd_eq (a b : Nat) (ha : a < W) (hb : b < W) : spec_gcd a b = Nat.gcd a b := by
+  unfold spec_gcd
+  apply Nat.mod_eq_of_lt
+  rcases Nat.eq_zero_or_pos a with h | h
+  · subst h; simpa using hb
+  · exact lt_of_le_of_lt (Nat.gcd_le_left b h) ha
+'''
